@@ -27,6 +27,9 @@ import (
 type Client struct {
 	A     *API
 	SeqQL bool
+	// RefuseStart: StartAsyncSearch answers with this error instead of reaching the store
+	// (a replica that is unreachable for the moment); set and cleared by the test between calls
+	RefuseStart error
 }
 
 func (c *Client) Bulk(ctx context.Context, in *sapi.BulkRequest, _ ...grpc.CallOption) (*emptypb.Empty, error) {
@@ -39,6 +42,9 @@ func (c *Client) Search(ctx context.Context, in *sapi.SearchRequest, _ ...grpc.C
 }
 
 func (c *Client) StartAsyncSearch(ctx context.Context, in *sapi.StartAsyncSearchRequest, _ ...grpc.CallOption) (*sapi.StartAsyncSearchResponse, error) {
+	if c.RefuseStart != nil {
+		return nil, c.RefuseStart
+	}
 	return c.A.G.StartAsyncSearch(ctx, in)
 }
 
@@ -78,6 +84,8 @@ type Cluster struct {
 	Dir    string
 	Stores [][]*API // [shard][replica]
 	Ing    *search.Ingestor
+	// Clients: the in-memory client of every store, [shard][replica]
+	Clients [][]*Client
 }
 
 func host(s, r int) string { return fmt.Sprintf("s%dr%d", s, r) }
@@ -88,6 +96,7 @@ func NewCluster(dir string, shards, replicas int, o StoreOpts, mapping seq.Mappi
 	hot := &stores.Stores{}
 	for s := 0; s < shards; s++ {
 		var row []*API
+		var crow []*Client
 		var hosts []string
 		for r := 0; r < replicas; r++ {
 			st, err := OpenStore(filepath.Join(dir, host(s, r)), o)
@@ -98,9 +107,12 @@ func NewCluster(dir string, shards, replicas int, o StoreOpts, mapping seq.Mappi
 			a := NewAPI(st, "", mapping)
 			row = append(row, a)
 			hosts = append(hosts, host(s, r))
-			clients[host(s, r)] = &Client{A: a, SeqQL: seqql}
+			cl := &Client{A: a, SeqQL: seqql}
+			clients[host(s, r)] = cl
+			crow = append(crow, cl)
 		}
 		c.Stores = append(c.Stores, row)
+		c.Clients = append(c.Clients, crow)
 		hot.Shards = append(hot.Shards, hosts)
 		hot.Vers = append(hot.Vers, "")
 	}
